@@ -1,5 +1,6 @@
 """Leapolkey (EAPOL-Key frame codec sub-check: C19, C05, C06, C07, C01) configuration for ./check"""
 CONF = {
+    'coq_sample': 10,   # cases re-evaluated inside Coq by vm_compute against the extracted runner's output
     'interesting': ['truncated-prefix-of-valid', 'info-every-bit', 'key-data-length-extreme', 'residue-key-data', 'length-extreme', 'field-byte-extreme',
                     'encrypted-key-data', 'plain-key-data', 'error-after-fields-set', 'field-extreme', 'out-of-domain', 'roundtrip', 'dirty-buffer',
                     'no-fixlengths', 'odd-payload', 'error-residue', 'serialize-error', 'residue-after-error', 'decode-error', 'malformed', 'seed'],
